@@ -12,3 +12,34 @@ package extendeddaemonsetreplicaset
 //@   ensures [C04] canary-role: result == "canary" <==> active != "" && active != replicassetName
 //@             && daemonset.Status.Canary != nil && daemonset.Status.Canary.ReplicaSet == replicassetName
 //@   ensures [C04] otherwise-unknown: result == "active" || result == "canary" || result == "unknown"
+//@
+//@ import podutils "github.com/DataDog/extendeddaemonset/pkg/controller/utils/pod"
+//@ import corev1 "k8s.io/api/core/v1"
+//@
+//@ func (*Reconciler).shouldDeleteFailedPod
+//@   trusted
+//@   modifies nothing
+//@
+//@ func FilterPodsByNode
+//@   trusted
+//@   modifies nothing
+//@   ensures result != nil && fresh(result)
+//@   ensures forall j int :: 0 <= j && j < len(result1) ==> result1[j] != nil
+//@
+//@ func (*Reconciler).FilterAndMapPodsByNode
+//@   requires r != nil && replicaset != nil && nodeList != nil && podList != nil
+//@   requires forall i int :: 0 <= i && i < len(nodeList.Items) ==> nodeList.Items[i] != nil && nodeList.Items[i].Node != nil
+//@   modifies nothing
+//@   loop 1 invariant forall k int :: 0 <= k && k < iter() ==> (ignoreNodes[k] in ignoreMapNode)
+//@   loop 1 invariant forall s string :: (s in ignoreMapNode) ==> exists k int :: 0 <= k && k < iter() && ignoreNodes[k] == s
+//@   loop 2 invariant forall s string :: (s in podsByNodeName) ==> !(s in ignoreMapNode)
+//@   loop 2 invariant forall s string :: (s in podsByNodeName) ==> (s in nodesByName)
+//@   loop 2 invariant forall s string :: (s in podsByNodeName) ==> podsByNodeName[s] == nil
+//@   loop 3 invariant [C04] never-plans-a-deletion-on-an-ignored-node: forall i int :: 0 <= i && i < len(podsToDelete) ==>
+//@             podsToDelete[i] != nil && !(fst(podutils.GetNodeNameFromPod(podsToDelete[i])) in ignoreMapNode)
+//@   loop 3 invariant [C01] never-plans-a-deletion-of-an-unknown-phase-pod: forall i int :: 0 <= i && i < len(podsToDelete) ==>
+//@             podsToDelete[i].Status.Phase != "Unknown"
+//@   loop 3 invariant forall s string :: (s in podsByNodeName) ==> !(s in ignoreMapNode)
+//@   loop 3 invariant forall s string :: (s in podsByNodeName) ==> loopfresh(podsByNodeName[s])
+//@   loop 3 modifies mapof(podsByNodeName)
+//@   loop 4 invariant true
